@@ -144,6 +144,14 @@ func permSlice(c *fw.Ctx) {
 		os.Chmod(filepath.Join(root, "rodir"), 0555)
 	}
 	build()
+	// the unprivileged user must be able to execute the binary wherever the
+	// harness was built: run a world-readable copy from the sandbox
+	if b, err := ioutil.ReadFile(bin); err == nil {
+		cp := filepath.Join(base, "davserver-copy")
+		if ioutil.WriteFile(cp, b, 0755) == nil && os.Chmod(cp, 0755) == nil {
+			bin = cp
+		}
+	}
 	cmd := exec.Command(bin, root)
 	cmd.SysProcAttr = &syscall.SysProcAttr{Credential: &syscall.Credential{Uid: nobody, Gid: nobody}}
 	out, _ := cmd.StdoutPipe()
